@@ -545,9 +545,13 @@ class AddPartitionsToTxnHandler(BaseHandler):
                     )
                     raise error_type()
         if unauthorized_topics:
-            txn_manager.error_transaction(
-                TopicAuthorizationFailedError(unauthorized_topics)
+            exc = TopicAuthorizationFailedError(unauthorized_topics)
+            # Those partitions were not added to the transaction, so the
+            # batches waiting for them must not reach the partition leaders.
+            self._sender._message_accumulator.fail_partitions(
+                [tp for tp in self._tps if tp.topic in unauthorized_topics], exc
             )
+            txn_manager.error_transaction(exc)
         return None
 
     def handle_error(self):
